@@ -29,6 +29,7 @@ import (
 	"time"
 	"unicode/utf8"
 
+	fdo "github.com/fido-device-onboard/go-fdo"
 	"github.com/fido-device-onboard/go-fdo/cbor"
 	"github.com/fido-device-onboard/go-fdo/fsim"
 	"github.com/fido-device-onboard/go-fdo/kex"
@@ -1103,6 +1104,10 @@ type e2eRun struct {
 	Wgets     []e2eFile
 	Timeout   time.Duration
 	MayReject bool // a configuration the library may refuse (probing the smallest MTU): failure is counted, not reported
+	// DefaultHTTP: keep the HTTP transport's and handler's default MaxContentLength (65535 bytes per message, which an
+	// encrypted 65535-byte service info does not fit); otherwise both are raised so that the modules can be exercised
+	// at the largest MTU
+	DefaultHTTP bool
 }
 
 func (r e2eRun) label() string {
@@ -1323,7 +1328,12 @@ func runE2E(c *core.Ctx, fx *e2eFixture, r e2eRun) {
 			"fdo.upload":   up,
 			"fdo.wget":     &fsim.Wget{CreateTemp: mkTemp(dirs["devtmp"]), NameToPath: toPath, Timeout: 20 * time.Second, Client: &http.Client{Transport: tr}},
 		}
-		_, terr = fx.e.TO2(ctx, dev, nil, cfg)
+		tp := fx.e.Transport()
+		fx.e.Handler.MaxContentLength = 0
+		if !r.DefaultHTTP {
+			tp.MaxContentLength, fx.e.Handler.MaxContentLength = 1<<21, 1<<21
+		}
+		_, terr = fdo.TO2(ctx, tp, nil, cfg)
 	}()
 	wall := time.Since(t0)
 	rounds := 0
@@ -1351,6 +1361,7 @@ func runE2E(c *core.Ctx, fx *e2eFixture, r e2eRun) {
 	}
 	// what is at the destinations
 	firstMissing := ""
+	missing := map[string]bool{}
 	check := func(dir string, fs []e2eFile, who string) {
 		want := map[string][]byte{}
 		for _, f := range fs {
@@ -1380,19 +1391,23 @@ func runE2E(c *core.Ctx, fx *e2eFixture, r e2eRun) {
 			for n := range want {
 				c.Fail("file-differs-e2e", fmt.Sprintf("%s: %s %q did not arrive although TO2 succeeded", r.label(), who, n), "e2e", p, o)
 			}
-		} else if firstMissing == "" {
-			// the transfers run in order: the first file that is not there is the one TO2 failed on
-			for _, f := range fs {
-				if _, miss := want[f.Name]; miss {
-					firstMissing = fmt.Sprintf("%s:%d/%d", who, len(f.Data), f.Chunk)
-					break
-				}
+		} else {
+			for n := range want {
+				missing[n] = true
 			}
 		}
 	}
 	dl := append(append([]e2eFile(nil), r.Downloads...), r.Wgets...)
 	check(dirs["devdest"], dl, "device")
 	check(dirs["owndest"], r.Uploads, "owner")
+	// the transfers run in order: the first file that is not there is the one TO2 failed on
+	for i, fs := range [][]e2eFile{r.Downloads, r.Uploads, r.Wgets} {
+		for _, f := range fs {
+			if missing[f.Name] && firstMissing == "" {
+				firstMissing = fmt.Sprintf("%s:%d/%d", []string{"download", "upload", "wget"}[i], len(f.Data), f.Chunk)
+			}
+		}
+	}
 	for _, n := range []string{"devtmp", "owntmp"} {
 		if es, _ := os.ReadDir(dirs[n]); len(es) > 0 {
 			c.Count("e2e_temp_left", n+":"+map[bool]string{true: "after-failure", false: "after-success"}[terr != nil])
@@ -1415,7 +1430,16 @@ func runE2E(c *core.Ctx, fx *e2eFixture, r e2eRun) {
 		if terr != nil && r.MayReject {
 			c.Count("e2e_mtu_rejected", fmt.Sprintf("%s %d-%d: %s", r.Kind, r.DevMTU, r.OwnMTU, fsimClip(terr.Error()[strings.LastIndex(terr.Error(), "]")+1:], 160)))
 		} else if terr != nil {
-			c.Fail(fmt.Sprintf("to2-failed-e2e:%s:%s/%d-%d", r.Kind, firstMissing, r.DevMTU, r.OwnMTU), terr.Error(), "e2e", p, o)
+			if firstMissing == "" {
+				firstMissing = r.Kind + ":-"
+			}
+			sig := fmt.Sprintf("to2-failed-e2e:%s/%d-%d", firstMissing, r.DevMTU, r.OwnMTU)
+			if r.Kind == "upload" && r.OwnMTU <= 1040 && strings.Contains(terr.Error(), "fdo.upload:data") {
+				// fsim.Upload always sends 1014-byte data chunks: with an owner size of 1040 or less the device's chunking
+				// cuts one across two messages and the owner, which reassembles per message, cannot decode it
+				sig = "upload-data-chunk-split-by-small-owner-mtu"
+			}
+			c.Fail(sig, terr.Error(), "e2e", p, o)
 		} else {
 			c.Count("e2e_ok", fmt.Sprintf("%s mtu=%d/%d", r.Kind, r.DevMTU, r.OwnMTU))
 		}
@@ -1481,7 +1505,9 @@ func RunC17(c *core.Ctx) {
 		"(several files in a row, ChunkSize {0,1,7,1014,3000,65535,-1}), fsim.UploadRequest/fsim.Upload and fsim.WgetCommand/fsim.Wget against a local HTTP server, MTUs {256,512,1300,4096,65535} " +
 		"in both directions, sizes around chunk and message-room multiples, plus runs in which a wrapper alters data/digest/length inside the tunnel; monitors only. " +
 		"non-trivial = at least one data message or an HTTP body; distinct = distinct case line"
-	c.Trivial = func(o core.Obs) bool { return !strings.Contains(o.Line, "(data ") && !strings.HasPrefix(o.Line, "fsim.wget") }
+	c.Trivial = func(o core.Obs) bool {
+		return !strings.Contains(o.Line, "(data ") && !strings.HasPrefix(o.Line, "fsim.wget")
+	}
 	t0 := time.Now()
 	quick := c.Quick()
 
@@ -1733,7 +1759,7 @@ func RunC17(c *core.Ctx) {
 		runs = append(runs, e2eRun{Kind: "mixed", DevMTU: 1300, OwnMTU: 1300, Downloads: []e2eFile{file(2500, 0), file(1, 7)}, Uploads: []e2eFile{file(3000, 0)},
 			Wgets: []e2eFile{func() e2eFile { f := file(5000, 0); f.Variant = "cl"; return f }()}})
 		runs = append(runs, e2eRun{Kind: "mixed", DevMTU: 512, OwnMTU: 4096, Downloads: []e2eFile{file(1014, 1014)}, Uploads: []e2eFile{file(1, 0), file(5000, 0)},
-			Wgets: []e2eFile{func() e2eFile { f := file(1, 0); f.Variant = "stream"; return f }()}, })
+			Wgets: []e2eFile{func() e2eFile { f := file(1, 0); f.Variant = "stream"; return f }()}})
 	} else {
 		for _, m := range mtus {
 			for _, ch := range chunks {
@@ -1782,6 +1808,12 @@ func RunC17(c *core.Ctx) {
 	for m := uint16(1016); m <= 1060; m += 4 {
 		runs = append(runs, e2eRun{Kind: "upload", DevMTU: 1300, OwnMTU: m, Uploads: []e2eFile{file(1014, 0)}, MayReject: true, Timeout: 20 * time.Second})
 	}
+	// the HTTP transport's default message limit (65535 bytes) against the largest MTU (counted, not reported)
+	for _, ch := range []int{65535, -1, 0} {
+		room := dataRoom(65535, ch)
+		runs = append(runs, e2eRun{Kind: "download-default-http-limit", DevMTU: 65535, OwnMTU: 1300, Downloads: []e2eFile{file(room-100, ch), file(room, ch)}, MayReject: true, DefaultHTTP: true,
+			Timeout: 20 * time.Second})
+	}
 	// the smallest MTU the library works with (counted, not reported)
 	for _, m := range []uint16{64, 128, 192} {
 		runs = append(runs, e2eRun{Kind: "download", DevMTU: m, OwnMTU: m, Downloads: []e2eFile{file(300, 0)}, MayReject: true, Timeout: 20 * time.Second})
@@ -1816,4 +1848,23 @@ func RunC17(c *core.Ctx) {
 		runE2E(c, fx, r)
 	}
 	c.Note("part 2: %d onboardings in %.1fs", c.Rep.Evaluations-part1, time.Since(t1).Seconds())
+	for _, mod := range []string{"download", "upload"} {
+		if h := c.Rep.Hist["no_verdict:"+mod]; len(h) > 0 {
+			var ks []string
+			for k := range h {
+				ks = append(ks, k)
+			}
+			sort.Strings(ks)
+			c.Note("fdo.%s receiver: after these deviations the sender has nothing more to send and the receiver neither delivers nor reports (it waits; model and implementation agree): %s",
+				mod, strings.Join(ks, " "))
+		}
+	}
+	if h := c.Rep.Hist["e2e_mtu_rejected"]; len(h) > 0 {
+		var ks []string
+		for k := range h {
+			ks = append(ks, k)
+		}
+		sort.Strings(ks)
+		c.Note("configurations probed and refused (TO2 fails, nothing delivered): %s", strings.Join(ks, " ;; "))
+	}
 }
